@@ -595,6 +595,15 @@ class Frame:
                 if len(ti) != 3:
                     raise Unsupported('cast kind %s to %r' % (ck, ti))
                 return BV([TOP] * ti[0], ti[1], ti[2])
+            if ck == 'PointerToIntegral':
+                # the ADDRESS as a number: free bits of its own ('at any alignment' - whatever the code decides on them, it
+                # decides for every value they can have: a test on them is a case split, each case held to the specification)
+                v = self.rvalue(sub)
+                ti = self.ip.tinfo(n)
+                if isinstance(v, Ptr) and len(ti) >= 2 and isinstance(ti[0], int):
+                    nm = 'addr(%s%+d)' % (getattr(v.base, 'name', v.base), v.off)
+                    return BV(subst_bits([(0, frozenset(['%s.%d' % (nm, i)])) for i in range(ti[0])], self.ip.assume), ti[1], False)
+                raise Unsupported('cast kind PointerToIntegral of %r' % (v,))
             raise Unsupported('cast kind %s' % ck)
         if k == 'DeclRefExpr':
             rd = n.get('referencedDecl', {})
@@ -796,6 +805,14 @@ class Frame:
             if op == '+':
                 return self.add(a, b, ZERO, a.signed and b.signed)
             return self.add(a, BV([bnot(y) for y in b.bits], b.signed), ONE, a.signed and b.signed)
+        if op in ('%', '/') and not a.isfloat and not b.isfloat and not a.signed and all(is_const(y) for y in b.bits):
+            # unsigned division / remainder by a constant power of two: a shift / a mask
+            d = sum(y[0] << i for i, y in enumerate(b.bits))
+            if d > 0 and d & (d - 1) == 0:
+                k_ = d.bit_length() - 1
+                if op == '%':
+                    return BV(list(a.bits[:k_]) + [ZERO] * (a.width - k_), a.signed)
+                return BV(list(a.bits[k_:]) + [ZERO] * k_, a.signed)
         raise Unsupported('operator %s on non-constants' % op)
 
     def logical(self, n):
@@ -914,6 +931,8 @@ class Frame:
                     self.exec_stmt(inn[2])
                 return
             if len(inn) > 2:
+                if self.ip.splitting and c is not TOP:
+                    raise NeedSplit(c)       # decided both ways by the case-split driver
                 raise Unsupported('if/else on symbolic condition')
             old = self.guard
             if old != ONE:
